@@ -781,6 +781,10 @@ class Model(Object):
         # from cameo ...
         self._populate_solver(pruned)
 
+    def _set_objective_coefficients(self, coefficients: Dict) -> None:
+        """Set linear coefficients on the solver's current objective."""
+        self.solver.objective.set_linear_coefficients(coefficients)
+
     def remove_reactions(
         self,
         reactions: Union[str, Reaction, List[Union[str, Reaction]]],
@@ -821,9 +825,11 @@ class Model(Object):
                     obj_coef = reaction.objective_coefficient
 
                     if obj_coef != 0:
+                        # The objective object may have been replaced by the
+                        # time the removal is reverted: look it up then.
                         context(
                             partial(
-                                self.solver.objective.set_linear_coefficients,
+                                self._set_objective_coefficients,
                                 {forward: obj_coef, reverse: -obj_coef},
                             )
                         )
